@@ -3,10 +3,21 @@ import CJ.Gen.LockPrograms
 import CJ.Drv.Util
 /-! Driver for the RWMutex model (C13).
 
-Threads (comma separated): `q:<path>` = a request following the named path of `Gen.bdReqPaths`,
-`r:<path>` = a reload following the named path of `Gen.reloadPaths` (both tables are regenerated from
-the Go source on every run, so the model always runs the code's current lock programs),
-`p:<letters>` = an explicit program (r rlock, u runlock, L lock, U unlock, R readSel, W swapSel, S select).
+Threads (comma separated) name the *entry point* the harness calls and the *shape* of the path the call
+takes; the program is looked up in `Gen.selectorPaths` (regenerated from the Go source on every run, so
+the model always runs the code's current lock programs) by that shape, never by a path name:
+
+* `q:<fams>:<exit>[:tag]` — `RegisterBidirectional`; `<fams>` = the address selections the request
+  performs, in order (`46`, `4`, `6`, empty); `<exit>` = `ok` (straight through every function on the way),
+  `sel` (error exit right after the last selection: the first early exit in execution order among the
+  paths with these selections), `late` (error exit after the selections: the last one), `early` (error
+  exit before anything else: the first early exit without selections);
+* `u:<exit>[:tag]` — `RegisterUnidirectional`;  `r:<exit>` — `ReloadSubnets` (`ok` / `early`);
+* `p:<letters>` = an explicit program (r rlock, u runlock, L lock, U unlock, R readSel, W swapSel, S select).
+
+An entry point without an entry in the table performs no operation on the selector lock (theorem
+`extractor_covers`): its program is empty.  Paths with the same shape and the same operations are one
+candidate; when the exit class asked for has no candidate the other class is used if it is unambiguous.
 
 * `rw|<threads>|<events>` — coarse run: events `s<i>` (start thread i) and `g<i>` (release thread i from
   the gate inside `Select`), then every parked thread is released; answer `<thread>;<thread>;…|ver=<n>`.
@@ -17,7 +28,10 @@ the Go source on every run, so the model always runs the code's current lock pro
 namespace CJ.Drv.RW
 open CJ.RW CJ.Drv
 
-inductive Kind | req (name : String) | rel (name : String) | raw
+inductive Exit | ok | sel | late | early
+deriving DecidableEq, Repr
+
+inductive Kind | req (fams : List Nat) (exit : Exit) | uni (exit : Exit) | rel | raw
 
 def parseOps (s : String) : Option (List Op) :=
   s.toList.mapM fun c =>
@@ -26,11 +40,47 @@ def parseOps (s : String) : Option (List Op) :=
     | 'R' => some .readSel | 'W' => some .swapSel | 'S' => some .select
     | _ => none
 
+def parseExit : String → Option Exit
+  | "ok" => some .ok | "sel" => some .sel | "late" => some .late | "early" => some .early
+  | _ => none
+
+def parseFams (s : String) : Option (List Nat) :=
+  s.toList.mapM fun c => match c with | '4' => some 4 | '6' => some 6 | _ => none
+
+def dedupOps : List (List Op) → List (List Op)
+  | [] => []
+  | p :: ps => p :: (dedupOps ps).filter (· != p)
+
+/-- the program of the path of entry point `root` with the given shape -/
+def lookup (table : List Path) (root : String) (fams : List Nat) (exit : Exit) : Option (List Op) :=
+  let paths := table.filter fun p => p.root == root
+  if paths.isEmpty then some []
+  else
+    let cands := paths.filter fun p => p.fams == fams
+    let straight := dedupOps ((cands.filter (!·.early)).map (·.ops))
+    let early := dedupOps ((cands.filter (·.early)).map (·.ops))
+    let (mine, other) := if exit == .ok then (straight, early) else (early, straight)
+    match mine with
+    | [] => match other with
+      | [p] => some p
+      | _ => none
+    | p :: _ => if exit == .late then mine.getLast? else some p
+
 def parseThread (s : String) : Option (Kind × List Op) :=
   match s.splitOn ":" with
-  | ["q", n] => (CJ.Gen.bdReqPaths.lookup n).map fun p => (.req n, p)
-  | ["q", n, _] => (CJ.Gen.bdReqPaths.lookup n).map fun p => (.req n, p)   -- third field: harness variant tag
-  | ["r", n] => (CJ.Gen.reloadPaths.lookup n).map fun p => (.rel n, p)
+  | "q" :: f :: e :: _ => do
+    let fams ← parseFams f
+    let exit ← parseExit e
+    let p ← lookup CJ.Gen.selectorPaths "RegProcessor.RegisterBidirectional" fams exit
+    some (.req fams exit, p)
+  | "u" :: e :: _ => do
+    let exit ← parseExit e
+    let p ← lookup CJ.Gen.selectorPaths "RegProcessor.RegisterUnidirectional" [] exit
+    some (.uni exit, p)
+  | ["r", e] => do
+    let exit ← parseExit e
+    let p ← lookup CJ.Gen.selectorPaths "RegProcessor.ReloadSubnets" [] exit
+    some (.rel, p)
   | ["p", ops] => (parseOps ops).map fun p => (.raw, p)
   | _ => none
 
@@ -45,21 +95,19 @@ def showVer : Option Nat → String
   | none => "nil"
 
 /-- the answer of a finished request: the version behind each returned address, `err` on an error exit -/
-def showReq (name : String) (seen : List (Option Nat)) : String :=
-  let comps := name.splitOn "+"
-  if comps.any (fun c => c.startsWith "err" || c.startsWith "return") then "err"
-  else
-    let fams := comps.filter (fun c => c == "v4" || c == "v6")
-    if fams.length == seen.length then
-      joinWith "." ((fams.zip seen).map fun (f, v) => (if f == "v4" then "4=" else "6=") ++ showVer v)
-    else joinWith "." ("?" :: seen.map showVer)
+def showReq (fams : List Nat) (exit : Exit) (seen : List (Option Nat)) : String :=
+  if exit != .ok then "err"
+  else if fams.length == seen.length then
+    joinWith "." ((fams.zip seen).map fun (f, v) => (if f == 4 then "4=" else "6=") ++ showVer v)
+  else joinWith "." ("?" :: seen.map showVer)
 
 def showThread (c : Coarse) (i : Nat) (k : Kind) (t : Thread) : String :=
   if !c.started.contains i then "idle"
   else if t.prog.isEmpty then
     match k with
-    | .req n => "done:" ++ showReq n t.seen
-    | .rel _ => "done"
+    | .req fams exit => "done:" ++ showReq fams exit t.seen
+    | .uni exit => if exit == .ok then "done:sent" else "done:err"
+    | .rel => "done"
     | .raw => "done:" ++ joinWith "." (t.seen.map showVer)
   else if c.parked.contains i then "parked"
   else "blocked"
